@@ -10,17 +10,62 @@ use std::marker::PhantomData;
 
 pub type Addr = u16;
 
-/// Harness configuration type, generic over the predictor.
-pub struct Cfg<P>(PhantomData<P>);
+/// Input types the harness can drive: the abstract value 0..=255 of the plans is embedded into the
+/// session's input type and projected back for the trace.
+pub trait HInput: Copy + Clone + PartialEq + Default + serde::Serialize + serde::de::DeserializeOwned + 'static {
+    /// bytes per player input on the wire
+    const WIDTH: usize;
+    fn enc(v: u8) -> Self;
+    /// the abstract value, or a number >= 1000 if the input is not the image of any abstract value
+    /// (bytes of different inputs mixed up)
+    fn dec(self) -> u64;
+}
+impl HInput for u8 {
+    const WIDTH: usize = 1;
+    fn enc(v: u8) -> Self {
+        v
+    }
+    fn dec(self) -> u64 {
+        self as u64
+    }
+}
+/// four-byte inputs: every byte carries the abstract value (the default input stays all-zero)
+impl HInput for u32 {
+    const WIDTH: usize = 4;
+    fn enc(v: u8) -> Self {
+        (v as u32) * 0x0101_0101
+    }
+    fn dec(self) -> u64 {
+        let b = self.to_le_bytes();
+        if b.iter().all(|x| *x == b[0]) {
+            b[0] as u64
+        } else {
+            1000 + (self % 1_000_000) as u64
+        }
+    }
+}
+/// project the bytes of one frame of an endpoint (WIDTH bytes per player) to abstract values
+pub fn dec_frame(width: usize, bytes: &[u8]) -> Vec<u64> {
+    if width <= 1 || bytes.len() % width != 0 {
+        return bytes.iter().map(|b| *b as u64).collect();
+    }
+    bytes
+        .chunks(width)
+        .map(|c| if c.iter().all(|x| *x == c[0]) { c[0] as u64 } else { 1000 + c.iter().map(|x| *x as u64).sum::<u64>() })
+        .collect()
+}
 
-impl<P> std::fmt::Debug for Cfg<P> {
+/// Harness configuration type, generic over the predictor and the input type.
+pub struct Cfg<P, I = u8>(PhantomData<(P, I)>);
+
+impl<P, I> std::fmt::Debug for Cfg<P, I> {
     fn fmt(&self, f: &mut std::fmt::Formatter<'_>) -> std::fmt::Result {
         f.write_str("Cfg")
     }
 }
 
-impl<P: InputPredictor<u8> + 'static> Config for Cfg<P> {
-    type Input = u8;
+impl<I: HInput, P: InputPredictor<I> + 'static> Config for Cfg<P, I> {
+    type Input = I;
     type InputPredictor = P;
     type State = game::GState;
     type Address = Addr;
@@ -28,10 +73,24 @@ impl<P: InputPredictor<u8> + 'static> Config for Cfg<P> {
 
 pub type CfgRepeat = Cfg<PredictRepeatLast>;
 pub type CfgDefault = Cfg<PredictDefault>;
+pub type CfgRepeatWide = Cfg<PredictRepeatLast, u32>;
+pub type CfgDefaultWide = Cfg<PredictDefault, u32>;
 
 /// Marker for configurations the harness can drive.
-pub trait HCfg: Config<Input = u8, State = game::GState, Address = Addr> {}
-impl<T: Config<Input = u8, State = game::GState, Address = Addr>> HCfg for T {}
+pub trait HCfg: Config<State = game::GState, Address = Addr> {
+    const WIDTH: usize;
+    fn enc(v: u8) -> Self::Input;
+    fn dec(i: Self::Input) -> u64;
+}
+impl<I: HInput, P: InputPredictor<I> + 'static> HCfg for Cfg<P, I> {
+    const WIDTH: usize = I::WIDTH;
+    fn enc(v: u8) -> I {
+        I::enc(v)
+    }
+    fn dec(i: I) -> u64 {
+        i.dec()
+    }
+}
 
 /// Install a silent panic hook (panics of the code under test are data, reported in traces).
 pub fn quiet_panics() {
